@@ -48,6 +48,9 @@ pub use crate::types::{ChitchatId, DeletionStatus, Heartbeat, Version, Versioned
 /// or so.
 pub(crate) const MAX_UDP_DATAGRAM_PAYLOAD_SIZE: usize = 65_507;
 
+/// Magic number (2 bytes), protocol version (1 byte) and message type (1 byte).
+const MESSAGE_HEADER_LEN: usize = 4;
+
 /// To prevent dead nodes from being recorded again after deletion,
 /// we keep a local memory of the last nodes that were garbage collected.
 pub(crate) const GARBAGE_COLLECTED_NODE_HISTORY_SIZE: NonZeroUsize =
@@ -137,7 +140,8 @@ impl Chitchat {
                 let scheduled_for_deletion: HashSet<_> =
                     self.scheduled_for_deletion_nodes().collect();
                 let self_digest = self.compute_digest(&scheduled_for_deletion);
-                let delta_mtu = MAX_UDP_DATAGRAM_PAYLOAD_SIZE - 1 - self_digest.serialized_len();
+                let delta_mtu =
+                    MAX_UDP_DATAGRAM_PAYLOAD_SIZE - MESSAGE_HEADER_LEN - self_digest.serialized_len();
                 let delta = self.cluster_state.compute_partial_delta_respecting_mtu(
                     &digest,
                     delta_mtu,
@@ -155,7 +159,7 @@ impl Chitchat {
                     self.scheduled_for_deletion_nodes().collect::<HashSet<_>>();
                 let delta = self.cluster_state.compute_partial_delta_respecting_mtu(
                     &digest,
-                    MAX_UDP_DATAGRAM_PAYLOAD_SIZE - 1,
+                    MAX_UDP_DATAGRAM_PAYLOAD_SIZE - MESSAGE_HEADER_LEN,
                     &scheduled_for_deletion,
                 );
                 Some(ChitchatMessage::Ack { delta })
